@@ -1,29 +1,38 @@
 #!/bin/bash
-# tools/seedbatch.sh [Cnn...] : evaluate every seeded change found under /tmp/seed/<Cnn>/_seed
+# SEEDROOT=/tmp/seed2 SEEDTAG=r2- tools/seedbatch.sh [Cnn...] : evaluate every seeded change found under $SEEDROOT/<Cnn>/_seed
 # against the property's quick check; one line per change in .work/seedbatch.txt
 export GOFLAGS=-mod=mod GOPROXY=off GOSUMDB=off GOTOOLCHAIN=local
 cd /verif
+SR=${SEEDROOT:-/tmp/seed2}; TG=${SEEDTAG:-r2-}
 PS=${@:-C01 C02 C03 C04 C05 C06 C07 C08 C09 C10 C11 C12 C13 C14 C15 C16 C17 C18 C19 C20}
 for P in $PS; do
-  for K in 1 2; do
-    S=/tmp/seed/$P/_seed
+  for K in 1 2 3 4; do
+    S=$SR/$P/_seed
     [ -f $S/patch$K.diff ] || continue
     if [ -f $S/demo${K}_test.go ]; then
-      tools/seedeval.sh $P $S/patch$K.diff $S/demo${K}_test.go 2>&1 | grep SEEDEVAL | sed "s/^/$P-$K /" >> .work/seedbatch.txt
+      tools/seedeval.sh $P $S/patch$K.diff $S/demo${K}_test.go 2>&1 | grep SEEDEVAL | sed "s/^/$P-$TG$K /" >> .work/seedbatch.txt
     elif [ -d $S/demo$K ]; then
       # script demo: a client module with replace => the scratch tree
       R=/tmp/evalrepo
       [ -d $R ] || git -C /repo worktree add -q --detach $R HEAD
       git -C $R checkout -q -- . ; git -C $R clean -fdq; git -C $R checkout -q --detach $(git -C /repo rev-parse HEAD)
-      D=/tmp/evaldemo; rm -rf $D; cp -r $S/demo$K $D; sed -i "s#=> /tmp/seed/$P#=> $R#" $D/go.mod; sed -i "s#/tmp/seed/$P#$R#g" $D/run.sh
-      sh $D/run.sh >/tmp/evalrepo.base.log 2>&1; BASE=$?
-      if ! git -C $R apply $S/patch$K.diff; then echo "$P-$K SEEDEVAL $P patch-does-not-apply" >> .work/seedbatch.txt; continue; fi
-      sh $D/run.sh >/tmp/evalrepo.mut.log 2>&1; MUT=$?
+      if [ -f $S/demo$K/run.sh ]; then
+        D=/tmp/evaldemo; rm -rf $D; cp -r $S/demo$K $D; sed -i "s#=> $SR/$P#=> $R#" $D/go.mod; sed -i "s#$SR/$P#$R#g" $D/run.sh
+        RUN="sh $D/run.sh"
+      else
+        # a main package meant to be run inside the module: go run ./_seed/demo<k>
+        D=$R/_seed/demo$K; mkdir -p $R/_seed; rm -rf $D; cp -r $S/demo$K $D
+        RUN="cd $R && go run ./_seed/demo$K"
+      fi
+      ( eval $RUN ) >/tmp/evalrepo.base.log 2>&1; BASE=$?
+      if ! git -C $R apply $S/patch$K.diff; then echo "$P-$TG$K SEEDEVAL $P patch-does-not-apply" >> .work/seedbatch.txt; continue; fi
+      ( eval $RUN ) >/tmp/evalrepo.mut.log 2>&1; MUT=$?
+      rm -rf $R/_seed
       ( cd $R && go build ./... >/tmp/evalrepo.build.log 2>&1 && go test -count=1 ./... >/tmp/evalrepo.test.log 2>&1 ); SUITE=$?
-      echo "$P-$K SEEDEVAL $P demo_without=$BASE demo_with=$MUT suite_with=$SUITE" >> .work/seedbatch.txt
+      echo "$P-$TG$K SEEDEVAL $P demo_without=$BASE demo_with=$MUT suite_with=$SUITE" >> .work/seedbatch.txt
       VERIF_REPO=$R ./check $P quick >/tmp/evalrepo.check.out 2>/dev/null; RC=$?
       OUT=$(grep -v "^KNOWN-FINDING\|^NOTE" /tmp/evalrepo.check.out)
-      echo "$P-$K SEEDEVAL $P check=$P -> ${OUT:-exit$RC-no-violation-line}" >> .work/seedbatch.txt
+      echo "$P-$TG$K SEEDEVAL $P check=$P -> ${OUT:-exit$RC-no-violation-line}" >> .work/seedbatch.txt
       git -C $R checkout -q -- . ; git -C $R clean -fdq; rm -rf $D
     fi
   done
